@@ -33,6 +33,14 @@ def corpus(tier):
     for i in range(n // 5):
         src = progen.raw_program(r, maxdepth=r.choice([3, 4, 5]), nstmts=r.randrange(2, 5))
         cases.append({'id': 'raw:%d' % i, 'src': src, 'verify': True, 'feature': 'raw'})
+    # exits pending across finally bodies / with-exits, generators suspended there, every exit from every clause of every try layout in a loop
+    import pendexit
+    for q in pendexit.programs():
+        cases.append({'id': 'pendexit:' + q['id'], 'src': q['src'], 'verify': True, 'feature': 'pendexit'})
+        # verified a second time without being run: a mis-compiled exit may make the program loop for ever, and a case that times out tells nothing
+        cases.append({'id': 'pendexit-static:' + q['id'], 'src': q['src'], 'verify': True, 'feature': 'pendexit', 'norun': True})
+    for q in pendexit.outside_loop_programs():
+        cases.append({'id': 'noloop:' + q['id'], 'src': q['src'], 'verify': True, 'feature': 'noloop', 'norun': True})
     # definition forms: what MAKE_FUNCTION / MAKE_CLOSURE / LOAD_BUILD_CLASS find on the stack - decorators x positional defaults x keyword-only
     # defaults (with gaps) x annotations x closure x */** parameters x lambda, each in four contexts; every definition is also called
     k = 0
